@@ -883,13 +883,16 @@ double Matrix::Determinant() const
 }
 double Matrix::Norm() const
 {
-	double squared_norm = 0.0;
+	// Frobenius norm = Euclidean norm of all entries; computed in the scaled domain like Vector::Norm(), so that the squares
+	// of very large or very small entries neither overflow nor underflow.
+	std::vector<double> entries;
+	entries.reserve(rows * columns);
 	for(unsigned int i = 0; i < rows; i++)
-	{
 		for(unsigned int j = 0; j < columns; j++)
-			squared_norm += components[i][j] * components[i][j];
-	}
-	return std::sqrt(squared_norm);
+			entries.push_back(components[i][j]);
+	int exponent;
+	double scaled_norm = Scaled_Norm(entries, exponent);
+	return std::ldexp(scaled_norm, exponent);
 }
 
 Matrix Matrix::Sub_Matrix(int row, int column) const
